@@ -361,6 +361,7 @@ pub fn run(args: &Args, rep: &mut Report) {
     let n = scs.len() as u64;
     run_cases(args, "C14", n, rep, &mut |i, rep| {
         if !mine(args, i) {
+            rep.cases -= 1;
             return;
         }
         let sc = &scs[i as usize];
